@@ -1,3 +1,4 @@
+import _overlay
 import threading, time
 from pysph.solver.controller import CommandManager
 class S:
